@@ -394,6 +394,27 @@ func checkC08(tier string) {
 			m.reqs = append(m.reqs, c08Req{Req: c08JSON("POST", "/ft/create/"+t, map[string]interface{}{"id": fmt.Sprintf("r%d", i), "val": val}), Op: &c08Op{"db", key, "write", val}})
 		}
 		for i := 32; i < n; i++ {
+			if i < 104 && m.conc <= 16 {
+				// hot keys: updates of two different fields of ONE record from many requests at
+				// once, interleaved with reads (an update that works on a private copy and
+				// publishes it later undoes the other field's update)
+				val := fmt.Sprintf("h%d", i)
+				switch i % 6 {
+				case 0:
+					m.reqs = append(m.reqs, c08Req{Req: c08JSON("POST", "/db/update/k0", map[string]interface{}{"val": val}), Op: &c08Op{"db", "k0", "update", val}})
+				case 1:
+					m.reqs = append(m.reqs, c08Req{Req: c08JSON("POST", "/db/tag/k0", map[string]interface{}{"tag": "t" + val}), Op: &c08Op{"db", "k0", "tag", "t" + val}})
+				case 2:
+					m.reqs = append(m.reqs, c08Req{Req: c08JSON("POST", "/mongo/update/m0", map[string]interface{}{"val": val}), Op: &c08Op{"mongo", "m0", "update", val}})
+				case 3:
+					m.reqs = append(m.reqs, c08Req{Req: c08JSON("POST", "/mongo/tag/m0", map[string]interface{}{"tag": "t" + val}), Op: &c08Op{"mongo", "m0", "tag", "t" + val}})
+				case 4:
+					m.reqs = append(m.reqs, c08Req{Req: HReq{M: "GET", P: "/db/get/k0"}, Op: &c08Op{"db", "k0", "read", ""}})
+				default:
+					m.reqs = append(m.reqs, c08Req{Req: HReq{M: "GET", P: "/mongo/find/m0"}, Op: &c08Op{"mongo", "m0", "read", ""}})
+				}
+				continue
+			}
 			if i%9 == 8 {
 				key := freshKeys[rng.Intn(len(freshKeys))]
 				m.reqs = append(m.reqs, c08Req{Req: HReq{M: "GET", P: "/ft/get/" + key}, Op: &c08Op{"db", key, "read", ""}})
